@@ -112,6 +112,15 @@ func (g graph) ser() string {
 	return strings.Join(p, " ")
 }
 
+// xrefL: limit > 0 configures Limits.MaxRecursionDepth, 0 leaves the default.
+func (g graph) xrefL(limit int) *model.XRefTable {
+	x := g.xref()
+	if limit > 0 {
+		x.Conf = &model.Configuration{Limits: model.ResourceLimits{MaxRecursionDepth: limit}}
+	}
+	return x
+}
+
 func (g graph) xref() *model.XRefTable {
 	x := &model.XRefTable{Table: map[int]*model.XRefTableEntry{}}
 	for k, o := range g {
@@ -221,15 +230,17 @@ func probeMain(args []string) {
 	g := parseGraph(args[0])
 	o1, _ := parseObj(strings.Fields(args[1]))
 	o2, _ := parseObj(strings.Fields(args[2]))
-	obs, _ := runEqual(o1, o2, g.xref(), nil, 1)
+	obs, _ := runEqual(o1, o2, g.xrefL(unInt(args[3])), nil, 1)
 	fmt.Print("RESULT:" + obs)
 }
 
 // mirror explores every comparison EqualObjects could reach (no early exit, any map order)
 // and reports whether the recursion depth is bounded.
 type mirror struct {
-	g    graph
-	over bool
+	g     graph
+	over  bool
+	limit int // > 0: do not descend below this depth (the real depth check) and count the calls
+	calls int
 }
 
 func (m *mirror) deref(o types.Object) types.Object {
@@ -243,7 +254,16 @@ func (m *mirror) eq(o1, o2 types.Object, pairs []int, depth int) {
 	if m.over {
 		return
 	}
-	if depth > 250 {
+	if m.limit > 0 {
+		m.calls++
+		if m.calls > 300000 {
+			m.over = true
+			return
+		}
+		if depth > m.limit {
+			return
+		}
+	} else if depth > 250 {
 		m.over = true
 		return
 	}
@@ -296,8 +316,8 @@ func (m *mirror) eq(o1, o2 types.Object, pairs []int, depth int) {
 var probes int
 
 // probeEqual runs the real function in a child process; "X" = the child died (stack overflow).
-func probeEqual(g graph, o1, o2 types.Object) string {
-	cmd := exec.Command(os.Args[0], "probe", g.ser(), ser(o1), ser(o2))
+func probeEqual(g graph, o1, o2 types.Object, limit int) string {
+	cmd := exec.Command(os.Args[0], "probe", g.ser(), ser(o1), ser(o2), vh.Int(int64(limit)))
 	var out, errb bytes.Buffer
 	cmd.Stdout, cmd.Stderr = &out, &errb
 	err := cmd.Run()
@@ -735,17 +755,30 @@ func runEqual(o1, o2 types.Object, x *model.XRefTable, pairs []int, times int) (
 }
 
 func checkPair(r *vh.Run, g graph, o1, o2 types.Object, pairs []int, label string) {
+	limit := 0 // default limit (100)
+	switch r.Rand.Intn(10) {
+	case 0:
+		limit = 1
+	case 1:
+		limit = 3
+	case 2:
+		limit = 7
+	}
+	x := g.xrefL(limit)
+	eff := x.MaxRecursionDepth()
+	lim := vh.Int(int64(eff))
 	m := &mirror{g: g}
 	m.eq(o1, o2, append([]int{}, pairs...), 0)
 	if m.over {
-		// the recursion of EqualObjects may be unbounded on this input
-		r.Count("eq:" + label + ":unbounded-recursion-possible")
+		// without the recursion depth check EqualObjects would not return on this input:
+		// run the real function in a child process (a Go stack overflow is fatal)
+		r.Count("eq:" + label + ":unbounded-without-depth-check")
 		if len(pairs) != 0 || probes >= 25 {
 			return
 		}
 		probes++
-		obs := probeEqual(g, o1, o2)
-		in := map[string]any{"graph": g.ser(), "o1": ser(o1), "o2": ser(o2)}
+		obs := probeEqual(g, o1, o2, limit)
+		in := map[string]any{"graph": g.ser(), "o1": ser(o1), "o2": ser(o2), "limit": eff}
 		switch {
 		case obs == "X":
 			r.Count("eq:probe:stack-overflow")
@@ -755,18 +788,28 @@ func checkPair(r *vh.Run, g graph, o1, o2 types.Object, pairs []int, label strin
 			r.Count("eq:probe:child-error")
 		default:
 			r.Count("eq:probe:" + obs)
-			r.Case("EqualObjects", []string{g.ser(), ser(o1), ser(o2), "", obs}, "consistent")
+			r.OracleOK()
+			// the model evaluates every dict entry: skip the rare inputs that are too expensive for it
+			c := &mirror{g: g, limit: eff}
+			c.eq(o1, o2, nil, 0)
+			if c.over {
+				r.Count("eq:probe:too-expensive-for-model")
+			} else {
+				r.Case("EqualObjects", []string{g.ser(), ser(o1), ser(o2), "", obs, lim}, "consistent")
+			}
 		}
 		return
 	}
-	x := g.xref()
 	obs, allTrue := runEqual(o1, o2, x, pairs, 5)
 	var ps string
 	if pairs != nil {
 		ps = vh.Ints(pairs)
 	}
-	r.Case("EqualObjects", []string{g.ser(), ser(o1), ser(o2), ps, obs}, "consistent")
+	r.Case("EqualObjects", []string{g.ser(), ser(o1), ser(o2), ps, obs, lim}, "consistent")
 	r.Count("eq:" + label + ":" + obs)
+	if limit > 0 {
+		r.Count("eq:limit-" + strconv.Itoa(limit) + ":" + obs)
+	}
 	if strings.Contains(obs, "P") {
 		r.OracleFail("equalobjects-panic", map[string]any{"graph": g.ser(), "o1": ser(o1), "o2": ser(o2)}, "panic in model.EqualObjects")
 		return
@@ -805,7 +848,7 @@ func contentDupCase(r *vh.Run, g graph, o1, o2 types.Object) {
 	m := &mirror{g: g}
 	m.eq(sd2, sd1, nil, 0)
 	if m.over {
-		r.Count("contentdup:unbounded-recursion-possible")
+		r.Count("contentdup:unbounded-without-depth-check")
 		return
 	}
 	l1, l2 := int64(len(sd1.Raw)), int64(len(sd2.Raw))
@@ -839,7 +882,7 @@ func contentDupCase(r *vh.Run, g graph, o1, o2 types.Object) {
 	sort.Strings(ks)
 	obs := strings.Join(ks, ",")
 	r.Count("contentdup:" + obs)
-	r.Case("ContentDup", []string{g.ser(), ser(o1), ser(o2), obs}, "consistent")
+	r.Case("ContentDup", []string{g.ser(), ser(o1), ser(o2), obs, vh.Int(int64(g.xref().MaxRecursionDepth()))}, "consistent")
 }
 
 func ref(nr int) types.Object { return *types.NewIndirectRef(nr, 0) }
@@ -1488,7 +1531,7 @@ func contentOf(fp string) string {
 }
 
 func main() {
-	if len(os.Args) == 5 && os.Args[1] == "probe" {
+	if len(os.Args) >= 5 && os.Args[1] == "probe" {
 		probeMain(os.Args[2:])
 		return
 	}
